@@ -179,9 +179,14 @@ func (c *cursorManager) GetCursor(ctx context.Context, streamName, cursorID stri
 		return 0, status.New(codes.Internal, err.Error())
 	}
 
-	// Cache the offset.
+	// Cache the offset unless a value was cached while we were scanning the
+	// log without holding the lock, i.e. a concurrent SetCursor completed. In
+	// that case the cached value is at least as recent as the one we read, so
+	// keep it rather than overwriting it with a potentially stale offset.
 	c.mu.Lock()
-	c.cache.Add(string(cursorKey), offset)
+	if cached, ok, _ := c.cache.PeekOrAdd(string(cursorKey), offset); ok {
+		offset = cached.(int64)
+	}
 	c.mu.Unlock()
 
 	return offset, nil
